@@ -100,19 +100,36 @@ def replay_sum(e, backend, real_t):
         st = list(c0)
         st[D - k] -= 2
         put_line(vel[k - 1], st, k, w)
-        fld, buf = mk(f), mk(np.full(shape, 9))
-        kernels.gen(f"gen_advection_timestep_euler_forward_conservative_eno3_pyst_kernel_{D}d", rt)(
-            field=fld, advection_flux=buf, velocity=mk(vel), dt_by_dx=three
-        )
+        fld, buf, velv = mk(f), mk(np.full(shape, 9)), mk(vel)
+        step = kernels.gen(f"gen_advection_timestep_euler_forward_conservative_eno3_pyst_kernel_{D}d", rt)
+        step(field=fld, advection_flux=buf, velocity=velv, dt_by_dx=three)
         s = fld.sum()
-        return None if abs(float(s - 1)) <= eps * 40 else f"sum after advection step = {float(s)} (was 1)"
+        if abs(float(s - 1)) > eps * 40:
+            return f"sum after advection step = {float(s)} (was 1)"
+        # a second step on the SAME arrays (the flux buffer now holds the first step's fluxes): the sum law holds for any field whose
+        # support keeps the margin, which one more step of reach 2 does when the impulse sits at depth >= 2 * margin
+        if min(min(c0), min(n - 1 - c for n, c in zip(shape, c0))) >= 8:
+            step(field=fld, advection_flux=buf, velocity=velv, dt_by_dx=three)
+            s = fld.sum()
+            if abs(float(s - 1)) > eps * 4000:
+                return f"sum after a second advection step on the same arrays = {float(s)} (was 1)"
+        return None
     if kind == "diff":
         f = np.zeros(shape)
         f[c0] = 1
         fld, buf = mk(f), mk(np.full(shape, 9))
-        kernels.gen(f"gen_diffusion_timestep_euler_forward_pyst_kernel_{D}d", rt)(field=fld, diffusion_flux=buf, nu_dt_by_dx2=three)
+        step = kernels.gen(f"gen_diffusion_timestep_euler_forward_pyst_kernel_{D}d", rt)
+        step(field=fld, diffusion_flux=buf, nu_dt_by_dx2=three)
         s = fld.sum()
-        return None if abs(float(s - 1)) <= eps * 40 else f"sum after diffusion step = {float(s)} (was 1)"
+        if abs(float(s - 1)) > eps * 40:
+            return f"sum after diffusion step = {float(s)} (was 1)"
+        # a second step on the SAME arrays (reach 1 per step: the impulse must sit at depth >= 3 for the sum law to apply again)
+        if min(min(c0), min(n - 1 - c for n, c in zip(shape, c0))) >= 3:
+            step(field=fld, diffusion_flux=buf, nu_dt_by_dx2=three)
+            s = fld.sum()
+            if abs(float(s - 1)) > eps * 4000:
+                return f"sum after a second diffusion step on the same arrays = {float(s)} (was 1)"
+        return None
     if kind == "curl":
         F = np.zeros((D,) + shape)
         F[cs["k"] - 1][c0] = 1
